@@ -93,7 +93,7 @@ func (r *decideRun) eval1(v ssa.Value) AV {
 					return avInt(0)
 				}
 			}
-			return r.fail("zero constant of type %s", x.Type())
+			return AV{Kind: "sym", Sym: "zero:" + x.Type().String()}
 		}
 		return avConst(x.Value)
 	case *ssa.Phi:
@@ -245,7 +245,38 @@ func (r *decideRun) run() ([]AV, string) {
 		return nil, "no body"
 	}
 	r.cur = fn.Blocks[0]
+	visited := map[*ssa.BasicBlock]bool{}
 	for r.steps = 0; r.steps < 500; r.steps++ {
+		if visited[r.cur] {
+			// a new iteration of a loop: everything computed inside it is computed again
+			// (phis of the header are re-evaluated below from the values of the back edge, which are
+			// read before their memo entries go)
+			var phiVals []AV
+			var phis []*ssa.Phi
+			for _, in := range r.cur.Instrs {
+				if phi, ok := in.(*ssa.Phi); ok {
+					for i, p := range phi.Block().Preds {
+						if p == r.pred {
+							phis = append(phis, phi)
+							phiVals = append(phiVals, r.eval(phi.Edges[i]))
+						}
+					}
+				}
+			}
+			for _, b := range fn.Blocks {
+				if r.cur.Dominates(b) {
+					for _, in := range b.Instrs {
+						if v, ok := in.(ssa.Value); ok {
+							delete(r.memo, v)
+						}
+					}
+				}
+			}
+			for i, phi := range phis {
+				r.memo[phi] = phiVals[i]
+			}
+		}
+		visited[r.cur] = true
 		// evaluate phis eagerly so later reads are memoised
 		for _, in := range r.cur.Instrs {
 			if phi, ok := in.(*ssa.Phi); ok {
@@ -302,4 +333,30 @@ func DecideTrace(fn *ssa.Function, oracle Oracle) (res []AV, trace []ssa.Instruc
 	r := &decideRun{fn: fn, oracle: oracle, memo: map[ssa.Value]AV{}}
 	res, err = r.run()
 	return res, r.trace, func(v ssa.Value) AV { saved := r.err; a := r.eval(v); r.err = saved; return a }, err
+}
+
+// CallEvent is one executed call on the decided path, with its arguments evaluated at that moment.
+type CallEvent struct {
+	Call ssa.CallInstruction
+	Args []AV
+}
+
+// DecideCalls runs fn like Decide and reports, in execution order, the calls selected by want.
+func DecideCalls(fn *ssa.Function, oracle Oracle, want func(ssa.CallInstruction) bool) ([]CallEvent, string) {
+	var evs []CallEvent
+	r := &decideRun{fn: fn, oracle: oracle, memo: map[ssa.Value]AV{}}
+	r.onCall = func(ci ssa.CallInstruction) {
+		if !want(ci) {
+			return
+		}
+		ev := CallEvent{Call: ci}
+		saved := r.err
+		for _, a := range ci.Common().Args {
+			ev.Args = append(ev.Args, r.eval(a))
+		}
+		r.err = saved
+		evs = append(evs, ev)
+	}
+	_, err := r.run()
+	return evs, err
 }
